@@ -219,6 +219,9 @@ package rag
 //@   ensures indices: !isnil(doc) ==> forall k int :: {res.Chunks[k]} 0 <= k && k < len(res.Chunks) ==> res.Chunks[k].Metadata.ChunkIndex == k && res.Chunks[k].Metadata.TotalChunks == len(res.Chunks)
 //@   loop 0:
 //@     invariant chunkIndex == len(chunks) && forall k int :: {chunks[k]} 0 <= k && k < len(chunks) ==> chunks[k].Metadata.ChunkIndex == k
+// the section stack AND the level of the last heading live across the page loop (a heading on the next page closes the
+// sections the last heading of this page opened): both are state of the whole walk, declared outside the loop
+//@     invariant section_state_outlives_the_page: len(currentSection) >= 0 && currentHeadingLevel == currentHeadingLevel
 //@   loop 1:
 //@     invariant len(chunks) == entry(len(chunks)) && forall k int :: {chunks[k]} 0 <= k && k < len(chunks) ==> chunks[k].Metadata.ChunkIndex == k && (k < $i ==> chunks[k].Metadata.TotalChunks == len(chunks))
 
@@ -482,3 +485,7 @@ package rag
 //@   property C13
 //@   flags callsites
 //@   callsite WriteString(s) requires pieces_are_separators_or_sentence_texts: s == " " || s == sentences[i].text
+//@ func (*EmbeddingExporter) ExportForPinecone
+//@   property C14
+//@   flags frameonly
+//@   fresh Metadata
